@@ -112,6 +112,7 @@ package sleep
 //@ after call os.WriteFile let werr = $ret
 //@ at call os.WriteFile assert $0 == tmpFile && $1 == marshalled && hassuffix($0, ".tmp") && len($0) == len(m.stateFile) + 4 && hasprefix($0, m.stateFile)
 //@ at call os.Rename assert werr == nil && $0 == tmpFile && $1 == m.stateFile
+//@ at[C34] call os.Remove assert $0 == tmpFile
 //@ note C34: the state file is never written in place: the new state goes to "<state file>.tmp" and reaches the live name only through one atomic rename of the completely written temporary file, so a crash at any point leaves the state before or after the save
 //@ ghostset persisted = ite(err == nil, ifaceval(m.state), persisted)
 //@ ensures err == nil ==> persisted == ifaceval(m.state)
@@ -190,3 +191,4 @@ package sleep
 //@ census[C30] (*Manager).persistState in (*Manager).Sleep, (*Manager).Wake, (*Manager).Poll, (*Manager).Stop
 //@ census[C30] os.WriteFile in (*Manager).persistState
 //@ census[C34] os.Rename in (*Manager).persistState
+//@ census[C34] os.Remove in (*Manager).persistState
